@@ -36,6 +36,9 @@ type Node struct {
 	IsResource   bool
 	Parent       *Node
 	Index        int
+	Key          string                       // JSON key under the parent object
+	Pos          int                          // index in the JSON array / proto list (-1 for a singular field)
+	FD           protoreflect.FieldDescriptor // field of the parent message holding this element (or its choice wrapper / Any)
 }
 
 var marshaller *jsonformat.Marshaller
@@ -143,7 +146,10 @@ func buildComplex(n *Node, m protoreflect.Message, j map[string]any, isResource 
 			items = []protoreflect.Message{m.Get(fd).Message()}
 		}
 		for k, it := range items {
-			kid := &Node{Name: base}
+			kid := &Node{Name: base, FD: fd, Pos: -1}
+			if fd.IsList() {
+				kid.Pos = k
+			}
 			key := base
 			el := it
 			// choice wrapper -> chosen member
@@ -178,6 +184,7 @@ func buildComplex(n *Node, m protoreflect.Message, j map[string]any, isResource 
 			}
 			kid.Msg = el.Interface()
 			kid.MD = el.Descriptor()
+			kid.Key = key
 			consumed[key] = true
 			consumed["_"+key] = true
 			var jv, jext any
@@ -241,7 +248,7 @@ func buildPrimitiveKids(n *Node, m protoreflect.Message) error {
 		if jv == nil {
 			return fmt.Errorf("primitive id missing in JSON for %s", md.Name())
 		}
-		n.Kids = append(n.Kids, &Node{Name: "id", Msg: idm.Interface(), MD: idm.Descriptor(), JSON: jv, IsPrim: true})
+		n.Kids = append(n.Kids, &Node{Name: "id", Msg: idm.Interface(), MD: idm.Descriptor(), JSON: jv, IsPrim: true, FD: idf, Pos: -1, Key: "id"})
 	}
 	if ef := md.Fields().ByName("extension"); ef != nil && ef.IsList() && m.Has(ef) {
 		l := m.Get(ef).List()
@@ -258,7 +265,7 @@ func buildPrimitiveKids(n *Node, m protoreflect.Message) error {
 			if !ok {
 				return fmt.Errorf("primitive extension not an object")
 			}
-			kid := &Node{Name: "extension", Msg: el.Interface(), MD: el.Descriptor(), JSON: jm}
+			kid := &Node{Name: "extension", Msg: el.Interface(), MD: el.Descriptor(), JSON: jm, FD: ef, Pos: k, Key: "extension"}
 			if err := buildComplex(kid, el, jm, false); err != nil {
 				return err
 			}
